@@ -94,6 +94,7 @@ class GenCfg:
     loner: bool = False              # an extra host thread with ONE childless operator that outlasts everything else
     p_overhang: float = 0.0          # an operator ends 1-2 us BEFORE its last child (timer glitch: not properly nested any more)
     p_nested_annotation: float = 0.0 # a child slot of an operator becomes a user annotation that wraps further operators
+    python_functions: bool = False   # interpreter frames (cat python_function, profiles taken with stacks) spanning some host operators
     tie_sync: bool = False           # the main thread ends with one kernel per stream, all ending at the same instant, and a device sync
     pad_entries: int = 0             # that many metadata entries right after the first file entry: event ids (file positions) get large
     per_rank: Optional[Dict[int, Dict[str, Any]]] = None   # knob overrides for individual ranks (differently instrumented ranks of one job)
@@ -487,6 +488,12 @@ def gen_rank(rng: random.Random, cfg: GenCfg, rank: int) -> RankTrace:
                 events.append({"ph": "X", "cat": "gpu_user_annotation", "name": nm, "pid": 0, "tid": s_,
                                "ts": lo_, "dur": hi_ - lo_, "args": {"External id": ext}})
                 ext += 1
+    if cfg.python_functions:
+        ops = [e for e in events if e["pid"] != 0 and e["cat"] == "cpu_op" and e["dur"] > 0]
+        for e in rng.sample(ops, min(len(ops), rng.randint(1, 4))):
+            events.append({"ph": "X", "cat": "python_function", "name": rng.choice(["torch/nn/modules/module.py(1501): _call_impl",
+                           "train.py(42): step", "<built-in method run_backward>"]), "pid": e["pid"], "tid": e["tid"], "ts": e["ts"], "dur": e["dur"],
+                           "args": {"Python id": rng.randrange(1, 50)}})
     # file order
     host_plain = [e for e in events if e["pid"] != 0 and e["cat"] == "cpu_op"]
     first_host = rng.choice(host_plain) if cfg.shuffle else host_plain[0]
